@@ -159,7 +159,7 @@ def install_propagate(reg, kind, fld, fn):
     # loop ordinals: viability: loop0 children, loop1 parents fold.  necessity: same (the TTC gate is an if, not a loop)
     reg.add(Contract(MP + ':' + fn, {'node': Obj(NODE)}, ghosts={'G': Addr, 'nu': LabelArr},
                      requires=requires, ensures=ensures, modifies=(arrname,),
-                     loops={0: LoopSpec(inv_children), 1: LoopSpec(inv_fold_factory(inv_fold))},
+                     loops={0: LoopSpec(inv_children, iter_src='node.children'), 1: LoopSpec(inv_fold_factory(inv_fold), iter_src='child.parents')},
                      term_rel=term_rel, props=('C08',)))
 
 
